@@ -15,7 +15,7 @@ class Run(object):
     """a World with every monitor installed"""
 
     def __init__(self, rng, mtu=1500, dt=1 / 60, jitter=0.0, ctxt_setup=None, nclients=1, bitfield=True, check_nonce=True,
-                 keep_wire=False, blocklist=None):
+                 keep_wire=False, blocklist=None, light=False):
         import mpgameserver.connection as C
         self.C = C
         self.rng = rng
@@ -27,10 +27,17 @@ class Run(object):
         self.c = self.world.counters
         self.tap = Tap(self.world).install()
         self.app = AppTracker(self.world, self.tap, self.report)
-        self.recvmon = RecvMonitor(self.world, self.tap, self.report)
-        self.resmon = ResolutionMonitor(self.world, self.tap, self.report, dt)
-        self.wiremon = WireMonitor(self.world, self.tap, self.report, check_nonce=check_nonce)
-        self.buildmon = BuildMonitor(self.world, self.tap, self.report)
+        if light:
+            # volume runs (C03): only the wire monitor; no per-receive snapshots, no genuine registry
+            self.tap.keep_genuine = False
+            self.recvmon = self.resmon = self.buildmon = None
+            bitfield = False
+        else:
+            self.recvmon = RecvMonitor(self.world, self.tap, self.report)
+            self.resmon = ResolutionMonitor(self.world, self.tap, self.report, dt)
+        self.wiremon = WireMonitor(self.world, self.tap, self.report, check_nonce=check_nonce, check_acks=not light)
+        if not light:
+            self.buildmon = BuildMonitor(self.world, self.tap, self.report)
         self.bfmon = None
         if bitfield:
             self.bfmon = BitFieldMonitor(lambda mech, msg: self.report("C08", mech, msg), self.c, sweep_every=0).install()
